@@ -203,7 +203,10 @@ def finish(pid, tier, seed, mod, insts, keep, results, known, wall):
     lines = []
     for k, hits in sorted(known_hits.items()):
         desc = known.get(k, "")
-        h = hits[0]
+        replayed = [x for x in hits if x["replayed"]]
+        if not replayed:
+            continue        # a model inside a listed region that does not replay on the float code is no finding (counted in the evidence)
+        h = replayed[0]
         print("KNOWN-FINDING: property=%s key=%s %s [check %s, instance %s, witness %s, replayed on float code: %s]" % (
             pid, k, desc, h["check"], h["instance"], json.dumps(h["witness"])[:300], any(x["replayed"] for x in hits)))
     vio_files = []
@@ -251,7 +254,8 @@ def finish(pid, tier, seed, mod, insts, keep, results, known, wall):
         per_check=per_check,
         instances=inst_rows,
         problems=problems[:20],
-        known_findings_matched=sorted(known_hits),
+        known_findings_matched=sorted(k for k, hits in known_hits.items() if any(x["replayed"] for x in hits)),
+        known_region_models_not_reproduced=sorted(k for k, hits in known_hits.items() if not any(x["replayed"] for x in hits)),
         engine="SRX: the imported /repo/desolver source executed on polynomial-normal-form symbolic reals in numpy object arrays; z3 %s decides path feasibility and assertions" % _z3ver(),
     )
     ev = dict(property_id=pid, tier=tier, seed=seed, level=getattr(mod, "LEVEL", "other"), coverage=cov,
